@@ -853,6 +853,10 @@ class Walker:
                         if ('deref',) not in nk[1]:
                             return ('mref' if rv.get('mut') else 'sref', nk)
                     break
+            if rv.get('mut'):
+                # mutable reborrow through a pointer (e.g. `&mut *param`): keep the place so that a call
+                # receiving it versions what the pointer refers to
+                return ('mref', key)
             return simp(('ref', self.read_key(env, key)))
         if 'rawptr' in rv:
             return simp(('ref', self.read_place(env, rv['rawptr'])))
@@ -1040,10 +1044,16 @@ class Walker:
                             res = ('call', ckey, args)
                 path.events.append(('call', bb, c, args, pkey(t['dest']), res, t.get('line')))
                 # havoc referents of &mut arguments
-                for a in rawargs:
+                for a, op in zip(rawargs, t['args']):
                     if a[0] == 'mref':
                         self.counter += 1
                         self.write_key(env, a[1], ('mutated', a[1], ckey, self.counter))
+                    else:
+                        l = op_local(op)
+                        if l is not None and self.body.lty(l).startswith('&mut ') and a[0] in ('param', 'uninit'):
+                            # the pointer itself (a `&mut` parameter) is handed over: version its referent
+                            self.counter += 1
+                            self.write_key(env, (a[1], (('deref',),)), ('mutated', (a[1], (('deref',),)), ckey, self.counter))
                 for k in env.get(ESCAPED, ()):
                     self.counter += 1
                     self.write_key(env, k, ('mutated', k, 'escaped', self.counter))
